@@ -19,7 +19,8 @@ RULE = ('tied-constant templates -- one constant tensor with 2-4 consumers, 2-3 
         'monitor saw one content per buffer.  distinct by (sharing kind, k, settings tuple); non-trivial iff the sharers get at least two '
         'different settings or at least one quantizing setting')
 ASSUMPTIONS = ['a raise is an acceptable outcome', 'float16 sharers: |fp16(x)-x| <= 2^-10|x| + 6e-8 counts as "within one step"']
-SETTINGS = [None, 'noq', 'wo8a_cw', 'wo8s_tw', 'wo8s_cw', 'wo4s_cw', 'drq8_cw', 'drq8_tw', 'drq4_cw', 'srq8a_cw', 'srq8a_tw', 'srq16_cw', 'fp16']
+SETTINGS = [None, 'noq', 'wo8a_cw', 'wo8s_tw', 'wo8s_cw', 'wo4s_cw', 'drq8_cw', 'drq8_tw', 'drq4_cw', 'srq8a_cw', 'srq8a_tw', 'srq16_cw', 'fp16',
+            'x_blk8_b2', 'x_blk8wo_b2']   # the last two: block-wise weights (skip_checks), one sharer replaced by an emulation subgraph
 
 
 def plan(tier):
@@ -49,14 +50,15 @@ def build(rng, kind, k):
     graphs.append(g)
   elif kind == 'same_buffer':
     g = models.G(b, 'main', 'm/', rng)
-    x = g.inp((2, 6))
+    r3 = bool(rng.random() < 0.3)        # [batch, sequence, features] activations (what the block-wise emulation expects)
+    x = g.inp((1, 2, 6) if r3 else (2, 6))
     arr = g.w((6, 6), 0.5)
     buf = b.new_buffer(arr)
     outs = []
     cur = x
     for i in range(k):
       w = g.const('tied_w', arr, buffer=buf)
-      y = g.fc(cur, 6, w=w, bias=False)
+      y = g.fc(cur, 6, w=w, bias=False, keep=r3)
       consumers.append(('FULLY_CONNECTED', g.sg.tensors[y].name.decode()))
       outs.append(y)
       cur = g.gelu(y) if rng.random() < 0.5 else x
@@ -66,14 +68,16 @@ def build(rng, kind, k):
     arr = None
     for i in range(k):
       g = models.G(b, f'sub{i}', f's{i}/', rng)
-      x = g.inp((2, 6))
+      if i == 0:
+        r3 = bool(rng.random() < 0.3)
+      x = g.inp((1, 2, 6) if r3 else (2, 6))
       if arr is None:
         arr = g.w((5, 6), 0.5)
         buf = b.new_buffer(arr)
       w = g.const('tied_w', arr, buffer=buf)
       if i and rng.random() < 0.5:
         x = g.tanh(x)          # the consuming operator sits at another position than in subgraph 0
-      y = g.fc(x, 5, w=w, bias=bool(rng.random() < 0.5))
+      y = g.fc(x, 5, w=w, bias=bool(rng.random() < 0.5), keep=r3)
       consumers.append(('FULLY_CONNECTED', g.sg.tensors[y].name.decode()))
       g.finish([g.tanh(y)] if rng.random() < 0.5 else [y], f'sig{i}')
       graphs.append(g)
@@ -115,11 +119,17 @@ def build(rng, kind, k):
   return models._spec(b, graphs, kind), consumers
 
 
-def check_returned(ctx, spec, src, out, base):
-  errs, maps, ms, mo = skeleton.analyse(spec.content, out, ms=src)
-  if [e for e in errs if not e[0].startswith('sig_')] or maps is None or any(m is None for m in maps):
-    ctx.violation('skeleton_broken', {'error': sorted({e[0] for e in errs})[0]}, base)
-    return
+def check_returned(ctx, spec, src, out, base, replaced=False):
+  """replaced: a block-wise (operator replacement) setting was accepted -- the graph is legitimately restructured and the emulation
+  stores its scales in separate tensors, so only the byte-level agreement of every tensor with its buffer is judged."""
+  if replaced:
+    ms, mo, maps = src, models.read(out), None
+    ctx.count('operator_replacement_returned:bytes_only')
+  else:
+    errs, maps, ms, mo = skeleton.analyse(spec.content, out, ms=src)
+    if [e for e in errs if not e[0].startswith('sig_')] or maps is None or any(m is None for m in maps):
+      ctx.violation('skeleton_broken', {'error': sorted({e[0] for e in errs})[0]}, base)
+      return
   # ---- per buffer: sharers agree with the stored bytes
   by_buf = {}
   for si, sg in enumerate(mo.subgraphs):
@@ -150,6 +160,8 @@ def check_returned(ctx, spec, src, out, base):
         ctx.count('mixed_dtype_sharers_left_untouched')
       elif len(sigs) > 1:
         ctx.violation('sharers_disagree', {'dtypes': sorted(decode.TYPE_NAME.get(s[0]) for s in sigs)}, dict(base, buffer=bi))
+  if replaced:
+    return
   # ---- per consumer of a SHARED constant: actual operand decodes to the source constant
   buf_refs = {}
   uses = {}
@@ -247,6 +259,11 @@ def run_case(ctx, case, rng):
       fam = recipes.SAME_WEIGHT_FAMILIES[int(rng.integers(len(recipes.SAME_WEIGHT_FAMILIES)))]
       settings = [fam[int(rng.integers(2))] for _ in range(k)]
       ctx.count('same_weights_mixed_modes_assignments')
+    elif r0 < 0.58:
+      # one sharer replaced by the block-wise emulation, the others left alone / float
+      settings = [str(rng.choice(['x_blk8wo_b2', 'x_blk8_b2']))] + [[None, 'noq', 'wo8s_cw'][int(rng.integers(3))] for _ in range(k - 1)]
+      settings = [settings[i] for i in rng.permutation(k)]
+      ctx.count('blockwise_sharer_assignments')
     else:
       settings = [SETTINGS[int(rng.integers(len(SETTINGS)))] for _ in range(k)]
     qt = aeq.Quantizer(spec.content)
@@ -280,7 +297,7 @@ def run_case(ctx, case, rng):
     distinct = len({s for s in settings})
     ctx.count('assignment:' + ('equal' if distinct == 1 else 'different'))
     ctx.unit(common.digest([kind, k, settings, acc[0] if acc[0][1] == '*' else None]), distinct > 1 or any(s not in (None, 'noq') for s in settings))
-    check_returned(ctx, spec, src, out, base)
+    check_returned(ctx, spec, src, out, base, replaced=any(str(s_).startswith('x_blk') for s_ in settings if s_))
     if ctx.sample is None:
       ctx.sample = dict(base, outcome='returned')
   return {}
